@@ -5,6 +5,7 @@ package fees
 
 import (
 	"encoding/binary"
+	"math/bits"
 	"sync"
 
 	"github.com/ava-labs/avalanchego/utils/math"
@@ -224,9 +225,7 @@ func computeNextPriceWindow(
 	if total > target {
 		// If the parent block used more units than its target, the baseFee should increase.
 		delta := total - target
-		x := previousPrice * delta
-		y := x / target
-		baseDelta := y / changeDenom
+		baseDelta := mulDivDiv(previousPrice, delta, target, changeDenom)
 		if baseDelta < 1 {
 			baseDelta = 1
 		}
@@ -239,9 +238,7 @@ func computeNextPriceWindow(
 	} else if total < target {
 		// Otherwise if the parent block used less units than its target, the baseFee should decrease.
 		delta := target - total
-		x := previousPrice * delta
-		y := x / target
-		baseDelta := y / changeDenom
+		baseDelta := mulDivDiv(previousPrice, delta, target, changeDenom)
 		if baseDelta < 1 {
 			baseDelta = 1
 		}
@@ -252,7 +249,11 @@ func computeNextPriceWindow(
 		// that has elapsed between the parent and this block.
 		if since > window.WindowSize {
 			// Note: roll/rollupWindow must be greater than 1 since we've checked that roll > rollupWindow
-			baseDelta *= since / window.WindowSize
+			scaled, over := math.Mul(baseDelta, since/window.WindowSize)
+			if over != nil {
+				scaled = consts.MaxUint64
+			}
+			baseDelta = scaled
 		}
 		n, under := math.Sub(nextPrice, baseDelta)
 		if under != nil {
@@ -265,6 +266,22 @@ func computeNextPriceWindow(
 		nextPrice = minPrice
 	}
 	return nextPrice, newRollupWindow
+}
+
+// mulDivDiv returns floor(a*b/c/d), computed without intermediate overflow and
+// saturating at the maximum uint64 value. It panics if c or d is zero.
+func mulDivDiv(a, b, c, d uint64) uint64 {
+	// 128-bit product, divided by c into a 128-bit quotient (qHi, qLo)
+	hi, lo := bits.Mul64(a, b)
+	qHi := hi / c
+	qLo, _ := bits.Div64(hi%c, lo, c)
+	// divided by d
+	rHi := qHi / d
+	rLo, _ := bits.Div64(qHi%d, qLo, d)
+	if rHi != 0 {
+		return consts.MaxUint64
+	}
+	return rLo
 }
 
 type Rules interface {
